@@ -65,3 +65,12 @@ add("C09", "exploration",
     "exact-one-value / absent-field predicate, and pass-through when a flag is off. Inputs are sampled; the 16 configurations are all covered.",
     "The backend is Go's HTTP server, which canonicalises field names (differently-cased copies are the same field, as for any HTTP peer).",
     "property-based testing (rapid): generated header sets x all 16 flag configurations, predicate oracle at a recording backend", "3/C09")
+add("C20", "exploration",
+    "Health part: generated pass/fail sequences of health checks x thresholds 1-4 are served by a scripted backend to the real agent binary; "
+    "a counter model over the observed check sequence decides when the agent must exit (and that it must not exit earlier), and fake-proxy "
+    "timestamps decide that no pending-list call precedes the first passing check. Shutdown part: signal x grace period x request phase x "
+    "backend latency scenarios; one-sided time bounds on exit, a list-call cut-off rule and complete upload of the request that was at the "
+    "backend. Scenarios are sampled (whole-second granularity of the health interval limits the count).",
+    "Time bounds are one-sided and generous (>=0.5 s slack); phases other than 'at backend' are only checked for exit timing and the "
+    "list-call rule. A bound hit only once is reported as inconclusive.",
+    "property-based testing (rapid): generated health-check histories against a counter model; generated signal/phase/grace scenarios with one-sided time bounds", "3/C20")
